@@ -17,6 +17,8 @@ const PROGRAMS: &[&str] = &[
     "p(0). p(1).", "p(0..1).", "q(0). q(1). p(X) :- q(X).", "q(0). q(1). p(X) :- q(X), not r(X). r(1).", "q(0). q(1). {p(X)} :- q(X).", "q(0). q(1). p(X+1) :- q(X).", "q(1). p(X) :- q(X), X > 0.", "q(0). q(1). p(X) :- q(X), X != 1.",
     "q(0). q(1). p(X) :- q(X), not not p(X).", "q(0). q(1). :- q(X), not p(X). {p(X)} :- q(X).", "q(0). {q(1)}. p :- q(1).", "q(1). p(X) :- X = 0..1, q(1).", "q(0). q(1). p(1 - X) :- q(X).", "q(0). q(1). r(X) :- q(X), not p(X). {p(0)}.",
     "q(0). q(2). p(X/2) :- q(X).", "q(a). q(1). p(X) :- q(X), X < a.", "p(X) :- q(X).", "p(X) :- q(X), not r(X).", "{p(X)} :- q(X).", "q(0). p(X) :- q(X), t. {t}.", "q(0, 1). p(X) :- q(X, Y).", "q(0, 1). q(1, 1). p(Y) :- q(X, Y), X != Y.",
+    // variables named like the head variables the translation introduces
+    "q(0). q(1). p(V1) :- q(V1).", "q(1). q(a). p(V1) :- q(V1), not r(V1).", "q(0). p(V2, V1) :- q(V1), q(V2).", "q(0). q(1). {p(V1)} :- q(V1), V1 != V.  r(V) :- q(V).", "q(1). p(V3) :- q(V1), V3 = V1 + 1.",
     // one symbol at two arities: one defined by rules, the other only used
     "q :- not p. p(1).", "p(a). q(X) :- p(X), not p(X, X).", "p :- not q(0). q(1). q :- p.", "p(0). p(0, 1) :- p(0), not p.", "{q(0)}. p :- q(0), not q.", "r(0). r(1). p(X) :- r(X), not r. q :- r(0, 0).",
 ];
